@@ -124,6 +124,19 @@ pub fn start_tag(rng: &mut Rng, name: Option<&str>, rules: &[(String, String)], 
         }
     }
     for (k, v) in rules { push(rng, &mut text, k, Some(v), &mut attrs); }
+    // attribute names are case-sensitive: `Name`, `SEVERITY`, `Keep-Sorted` are attributes of their own (several spellings may
+    // sit in one tag with different values) and never stand in for the built-in ones
+    if (fancy && rng.chance(1, 3)) || (!rules.is_empty() && rng.chance(1, 6)) {
+        let twins: [(&str, &[&str]); 6] = [("Name", &["Other", "x y"]), ("NAME", &["third"]), ("Severity", &["warning", "hint", "info"]),
+                                            ("SEVERITY", &["error", "warning"]), ("sEVERITY", &["info"]), ("Keep-Sorted", &["desc"])];
+        let first = rng.below(6);
+        for d in 0..1 + rng.below(3) {
+            let (k, vs) = twins[(first + d * 2) % 6];
+            if attrs.iter().any(|a| a.0 == k) { continue; }
+            let v = *rng.pick(vs);
+            push(rng, &mut text, k, Some(v), &mut attrs);
+        }
+    }
     if fancy && rng.chance(1, 4) { text += *rng.pick(SPACES); }
     text += ">";
     TagSpec { text, start: true, name: name.map(String::from), attrs }
@@ -416,8 +429,20 @@ pub fn generate_unbalanced(_ctx: &mut Ctx, seed: u64, i: usize) -> Case {
     rng.shuffle(&mut walk);
     // scan, list-like (no validators matter) and diff mode (every line of every file changed)
     let diff_mode = rng.chance(1, 3);
+    // the diff names every file; it changes every line, or one line only (first / last / any), or a few lines: the damaged
+    // tag may lie above or below everything the diff touches - the file is in scope all the same
+    let style = rng.below(4);
     let changes = if diff_mode {
-        Some(files.iter().map(|(p, t)| (p.clone(), (1..=t.as_ref().unwrap().lines().count() + 1).map(|l| (l, None)).collect())).collect())
+        Some(files.iter().map(|(p, t)| {
+            let n = t.as_ref().unwrap().lines().count().max(1);
+            let lines: Vec<usize> = match style {
+                0 => (1..=n + 1).collect(),
+                1 => vec![1],
+                2 => vec![1 + rng.below(n)],
+                _ => { let mut v: Vec<usize> = (0..1 + rng.below(3)).map(|_| 1 + rng.below(n)).collect(); v.sort(); v.dedup(); v }
+            };
+            (p.clone(), lines.into_iter().map(|l| (l, None)).collect())
+        }).collect())
     } else { None };
     Case {
         files,
